@@ -347,6 +347,45 @@ def replay_m(mode, f, sats, dfdrv, workdir, pid, log):
                     bad, info = native_quantise_check(f, cand, dfdrv)
                     tried.append(dict(info, query=qn, violates=bad))
                     reproduced |= bad
+    if not reproduced:
+        # The solver says the abstraction admits a violation but its particular model does not
+        # reproduce. Before giving up ("abstraction too coarse") look for a concrete witness natively
+        # in the field the solver pointed at: all patterns when the field is narrow, otherwise corners
+        # plus a large seeded sample / inputs just either side of the half steps.
+        rnd = random.Random(4242 + int(os.environ.get("VERIF_SEED", "0") or 0))
+        ln = f["len"]
+        top = (1 << ln) - 1
+        if mode == "roundtrip":
+            pats = list(range(top + 1)) if ln <= 16 else sorted(set([0, 1, top, top - 1, 1 << (ln - 1), (1 << (ln - 1)) - 1] + [rnd.randrange(0, top + 1) for _ in range(60000)]))
+            outs = native.run_lines(dfdrv, ["rt %s %d" % (f["id"], p) for p in pats])
+            half = 1 << (ln - 1)
+            for p, r in zip(pats, outs):
+                want = 0 if (f["kind"] == "sm" and p == half) else p
+                if r.split()[:2] != ["pat", str(want)]:
+                    tried.append({"query": "native search", "pattern": p, "native_roundtrip": r, "expected_pattern": want, "violates": True})
+                    reproduced = True
+                    break
+        else:
+            klo, khi, holes = fq.rep_range(f)
+            ks = sorted(set([klo, klo + 1, -1, 0, 1, khi - 1, khi] + [rnd.randrange(klo, khi + 1) for _ in range(300)]))
+            for k in ks:
+                if not (klo <= k < khi) or k in holes or (k + 1) in holes:
+                    continue
+                d0 = native_decode_value(f, engine.channel_pattern(engine.ConcreteDomain(), f["it"], k, ln), dfdrv)
+                d1 = native_decode_value(f, engine.channel_pattern(engine.ConcreteDomain(), f["it"], k + 1, ln), dfdrv)
+                if d0 is None or d1 is None:
+                    continue
+                for frac in (Fraction(49, 100), Fraction(51, 100), Fraction(1, 100), Fraction(99, 100)):
+                    x = float(d0 + (d1 - d0) * frac)
+                    if f["dt"] == "f32":
+                        x = engine.f32_round(x)
+                    bad, info = native_quantise_check(f, x, dfdrv)
+                    if bad:
+                        tried.append(dict(info, query="native search", violates=True))
+                        reproduced = True
+                        break
+                if reproduced:
+                    break
     rec = {"property": pid, "engine": "mirsmt", "mode": mode, "field": f["id"], "tried": tried, "reproduced": reproduced,
            "how": "model of the SMT query concretised (pattern, or the floats nearest to the model's real x) and run through the real dfs::%s::{decode,encode} natively (release build)" % f["id"]}
     with open(rpath, "w") as fh:
